@@ -138,6 +138,12 @@ def hyp_cases(max_L, max_L_2d, max_color, max_n):
 def run(ctx):
     if ctx.tier == 'quick':
         cases = domain.all_code_cases(4, 6, 3, max_n=700, thin=True)
+        # the hollow lattices have size-dependent hole geometry in every
+        # direction: all (also non-cubic) sizes up to 6
+        have = {(c['cls'], tuple(c['size']), c['deformation'], str(c['kwargs'])) for c in cases}
+        cases += [c for c in domain.all_code_cases(6, 6, 1, max_n=900, thin=True,
+                                                   classes=['HollowRhombicCode', 'HollowPlanar3DCode'])
+                  if (c['cls'], tuple(c['size']), c['deformation'], str(c['kwargs'])) not in have]
         ctx.run_cases(cases, chunk=8)
         ctx.run_hypothesis('hyp_cases', 160, max_L=7, max_L_2d=12,
                            max_color=4, max_n=1200)
